@@ -17,7 +17,7 @@ func init() {
 		family{"K-nested-coro", 4, famNestedCoro},
 		family{"K-peek-skip", 4, famPeekSkip},
 		family{"K-copy", 4, famCopy},
-		family{"S-iterate", 4, famIterate},
+		family{"S-iterate", 7, famIterate},
 		family{"S-const-table", 3, famConstTable},
 		family{"S-second-part", 2, famSecondPart},
 		family{"S-sat-mod-ops", 1, famSatModOps},
@@ -326,6 +326,37 @@ func famIterate(g *genctx, v int) *scen {
 		length, adv, unroll = 8, 8, 4
 	}
 	idx := length - 1
+	if v >= 4 {
+		// two (v == 6: three) slices advance together; the shortest one bounds the loop
+		switch v {
+		case 5:
+			length, adv, unroll = 4, 4, 2
+		case 6:
+			length, adv, unroll = 2, 2, 1
+		}
+		idx = length - 1
+		third, thirdUse, thirdArg := "", "", ""
+		if v == 6 {
+			third, thirdUse, thirdArg = ", r = args.z", " ~mod+ ((r[0] as base.u32) << 16)", ", z: roslice base.u8"
+		}
+		s := &scen{features: []string{"iterate", "multi-slice", fmt.Sprintf("unroll%d", unroll)}}
+		s.fields = []string{f + " : base.u32"}
+		s.methods = []string{
+			fmt.Sprintf("pub func obj.%s!(x: roslice base.u8, y: roslice base.u8%s) base.u32 {\n    var p : roslice base.u8\n    var q : roslice base.u8\n    var r : roslice base.u8\n    var h : base.u32\n    h = this.%s\n    iterate (p = args.x, q = args.y%s)(length: %d, advance: %d, unroll: %d) {\n        h = (((h ~mod* 31) ~mod+ (p[0] as base.u32)) ~mod+ ((q[%d] as base.u32) << 8))%s\n    } else (length: 1, advance: 1, unroll: 1) {\n        h = ((h ~mod* 33) ^ (p[0] as base.u32)) ~mod+ (q[0] as base.u32)\n    }\n    this.%s = h\n    return h\n}", m, thirdArg, f, third, length, adv, unroll, idx, thirdUse, f),
+		}
+		s.drive = func(r *rand.Rand) []Call {
+			var out []Call
+			for _, nn := range [][3]int{{0, 0, 0}, {8, 8, 8}, {9, 5, 9}, {5, 9, 7}, {16, 3, 16}, {3, 16, 2}, {17, 16, 1}, {12, 11, 13}, {33, 7, 40}, {7, 33, 0}, {4, 4, 5}, {1, 0, 1}} {
+				args := []Arg{{Kind: "slice", Slice: randBytes(r, nn[0])}, {Kind: "slice", Slice: randBytes(r, nn[1])}}
+				if v == 6 {
+					args = append(args, Arg{Kind: "slice", Slice: randBytes(r, nn[2])})
+				}
+				out = append(out, Call{Method: m, Args: args})
+			}
+			return out
+		}
+		return s
+	}
 	s := &scen{features: []string{"iterate", fmt.Sprintf("unroll%d", unroll)}}
 	s.fields = []string{f + " : base.u32"}
 	s.methods = []string{
